@@ -90,6 +90,7 @@ FAMILY = [
     ("expression_types_factory", "FACT:A-", "FACT:B-", '<p tal:content="mark:name">x</p>', "PageTemplate", "PageTemplate"),
     # an instance whose representation is the default one (class and
     # address): the restarted process has a different one at the same address
+    ("expression_types_quiet", "QUIET:Hello ", "QUIET:Bye ", '<p tal:content="greet:name">x</p>', "PageTemplate", "PageTemplate"),
     ("expression_types_instance", "INST:Hello ", "INST:Bye ", '<p tal:content="greet:name">x</p>', "PageTemplate", "PageTemplate"),
     # the content type a template falls back to when its body does not
     # declare one decides between HTML and XML compilation
@@ -136,6 +137,7 @@ OPTION_OF = {
     "expression_types_partial": "expression_types",
     "expression_types_factory": "expression_types",
     "expression_types_instance": "expression_types",
+    "expression_types_quiet": "expression_types",
     "tokenizer_lambda": "tokenizer",
     "extra_builtins_value": "extra_builtins",
     "extra_builtins_more": "extra_builtins",
@@ -243,6 +245,21 @@ class Greet:
 
     def __repr__(self):
         return "<sim.checks.c15.Greet object at 0x%x>" % self.addr
+
+    def __call__(self, expression):
+        return QuoteExpr(self.word, "", expression)
+
+
+class Quiet:
+    """``greet:expr`` again, by an instance whose representation says
+    nothing about how it was configured (a dataclass with a ``repr=False``
+    field prints like this)."""
+
+    def __init__(self, word):
+        self.word = word
+
+    def __repr__(self):
+        return "Quiet()"
 
     def __call__(self, expression):
         return QuoteExpr(self.word, "", expression)
@@ -426,6 +443,10 @@ class C15(CheckBase):
                     _MARKS[m_] = make_mark(m_)
                 v = dict(self.zt.PageTemplate.expression_types,
                          mark=_MARKS[m_])
+            if k == "expression_types" and isinstance(v, str) and \
+                    v.startswith("QUIET:"):
+                v = dict(self.zt.PageTemplate.expression_types,
+                         greet=Quiet(v[6:]))
             if k == "expression_types" and isinstance(v, str) and \
                     v.startswith("INST:"):
                 v = dict(self.zt.PageTemplate.expression_types,
